@@ -276,6 +276,14 @@ fn gen_case(rng: &mut Rng, long: bool) -> T {
                 // block: ids among the touched transactions (plus an unknown one), never a
                 // transaction together with one of its static descendants, and few enough
                 // keys for the iteration order to stay visible in the LRU
+                let h = match rng.below(6) {
+                    0 => height.saturating_sub(1),
+                    1 => height + 2,
+                    _ => height,
+                };
+                if h >= height {
+                    height = h + 1;
+                }
                 let mut ids: Vec<u64> = vec![];
                 let mut budget = max_txs + 1;
                 let want = rng.range(0, 3);
@@ -297,21 +305,19 @@ fn gen_case(rng: &mut Rng, long: bool) -> T {
                     });
                     let orphan = pos
                         .map(|a| {
-                            table.iter().any(|p| p.id != id && table[a].depends_on(p) && !committed.contains(&p.id))
+                            table.iter().any(|p| {
+                                p.id != id
+                                    && table[a].depends_on(p)
+                                    && (!committed.contains(&p.id)
+                                        // a parent that is only preconfirmed would be rolled back by this block
+                                        || tentative.iter().any(|(ph, pid)| *pid == p.id && *ph <= h))
+                            })
                         })
                         .unwrap_or(false);
                     if !ids.contains(&id) && !clash && !orphan && cost <= budget {
                         budget -= cost;
                         ids.push(id);
                     }
-                }
-                let h = match rng.below(6) {
-                    0 => height.saturating_sub(1),
-                    1 => height + 2,
-                    _ => height,
-                };
-                if h >= height {
-                    height = h + 1;
                 }
                 // usually the database applies the block's transactions first
                 if rng.chance(3, 4) {
